@@ -24,6 +24,18 @@ class Unsupported(Exception):
 NUM = ("Integer", "Number")
 
 
+class _Err:
+    """Value of an operation VTL defines as a runtime error (division by zero).  It propagates through every operator;
+    the engine must raise a VTL error if such a value reaches the result (or a filter condition); if the datapoint
+    carrying it is dropped before (no partner in a later join, filtered out), both raising and not raising are accepted."""
+    def __repr__(self):
+        return "ERR"
+
+
+ERR = _Err()
+SEEN = {"err": 0}
+
+
 def _num(v):
     return isinstance(v, (int, Fraction)) and not isinstance(v, bool)
 
@@ -69,6 +81,8 @@ def round_half_up(x, n):
 
 
 def apply_bin(op, a, b):
+    if a is ERR or b is ERR:
+        return ERR
     if op in ("and", "or", "xor"):
         if op == "and":
             return kleene_and(a, b)
@@ -87,7 +101,8 @@ def apply_bin(op, a, b):
         return a * b
     if op == "/":
         if b == 0:
-            raise VTLError("division by zero")
+            SEEN["err"] += 1
+            return ERR
         return Fraction(a) / Fraction(b)
     if op == "mod":
         if b == 0:
@@ -120,6 +135,8 @@ def _flt(x):
 
 
 def apply_un(op, a):
+    if a is ERR:
+        return ERR
     if op == "not":
         return None if a is None else (not a)
     if a is None:
@@ -132,6 +149,8 @@ def apply_un(op, a):
 
 
 def apply_fn(name, args):
+    if any(x is ERR for x in args):
+        return ERR
     a = args[0] if args else None
     if name == "isnull":
         return a is None
@@ -221,20 +240,28 @@ def ev(e, row):
     if k == "fn":
         return apply_fn(e[1], [ev(x, row) for x in e[2]])
     if k == "isnull":
-        return ev(e[1], row) is None
+        v = ev(e[1], row)
+        return ERR if v is ERR else v is None
     if k == "nvl":
         a = ev(e[1], row)
         return ev(e[2], row) if a is None else a
     if k == "if":
         c = ev(e[1], row)
+        if c is ERR:
+            return ERR
         return ev(e[2], row) if c is True else ev(e[3], row)
     if k == "case":
         for c, v in e[1]:
-            if ev(c, row) is True:
+            cv = ev(c, row)
+            if cv is ERR:
+                return ERR
+            if cv is True:
                 return ev(v, row)
         return ev(e[2], row)
     if k == "in":
         v = ev(e[1], row)
+        if v is ERR:
+            return ERR
         if v is None:
             return None
         vals = [lit_value(t, x) for t, x in e[2]]
@@ -242,6 +269,8 @@ def ev(e, row):
         return (not r) if e[3] else r
     if k == "between":
         v, lo, hi = ev(e[1], row), ev(e[2], row), ev(e[3], row)
+        if v is ERR or lo is ERR or hi is ERR:
+            return ERR
         if v is None or lo is None or hi is None:
             return None
         return lo <= v <= hi
@@ -355,7 +384,14 @@ def eval_ds(ir, env, scalars=None):
     if k == "clause":
         kind, (ca, ra), payload = ir[1], eval_ds(ir[2], env, scalars), ir[3]
         if kind == "filter":
-            return ca, [r for r in ra if ev(payload, r) is True]
+            keep = []
+            for r in ra:
+                c = ev(payload, r)
+                if c is ERR:
+                    raise VTLError("runtime error inside a filter condition")
+                if c is True:
+                    keep.append(r)
+            return ca, keep
         if kind == "calc":
             out_c = dict(ca)
             for name, role, typ, e in payload:
@@ -416,6 +452,8 @@ def _fn_type(name, t, nparams):
 # ---- aggregations (C03) -----------------------------------------------------------
 def aggregate(op, values):
     """VTL aggregate of a list of values (nulls ignored).  Exact rationals; sqrt at the end."""
+    if any(v is ERR for v in values):
+        return ERR
     vals = [v for v in values if v is not None]
     if op == "count":
         return len(vals)
@@ -530,6 +568,8 @@ def eval_ds(ir, env, scalars=None):  # noqa: F811  (extends the dispatcher above
         return eval_aggr_clause(ir, env)
     if ir[0] == "setop":
         return eval_setop(ir, env)
+    if ir[0] == "dsif":
+        return eval_dsif(ir, env)
     if ir[0] == "join":
         return eval_join(ir, env)
     if ir[0] == "analytic":
@@ -575,3 +615,204 @@ def eval_setop(ir, env):
     else:
         raise Unsupported(op)
     return dict(comps), [dict(r) for r in out.values()]
+
+
+# ---- joins (C04) ---------------------------------------------------------------------
+def eval_join(ir, env):
+    """("join", kind, [(A, alias), ...], using or None, [body clauses (kind, payload)])
+    kind in inner_join / left_join / full_join / cross_join.  Non-identifier components whose name occurs in more than
+    one operand are exposed as alias#name."""
+    _, kind, operands, using, body = ir
+    evs = [(eval_ds(a, env), alias) for a, alias in operands]
+    names = {}
+    for (c, _), alias in evs:
+        for n, (role, t) in c.items():
+            if role != "I":
+                names[n] = names.get(n, 0) + 1
+    def cname(alias, n):
+        return "%s#%s" % (alias, n) if names[n] > 1 else n
+    if kind == "cross_join":
+        raise Unsupported("cross_join")
+    (c0, r0), a0 = evs[0]
+    acc_c = {}
+    for n, (role, t) in c0.items():
+        acc_c[n if role == "I" else cname(a0, n)] = (role, t)
+    acc_r = [{(n if c0[n][0] == "I" else cname(a0, n)): v for n, v in r.items()} for r in r0]
+    for (c, rows), alias in evs[1:]:
+        ids_acc = [n for n, (role, t) in acc_c.items() if role == "I"]
+        ids_new = ids_of(c)
+        keys = list(using) if using else [i for i in ids_new if i in ids_acc]
+        if kind == "full_join" and sorted(ids_new) != sorted(ids_acc):
+            raise Unsupported("full_join with different identifiers")
+        if kind == "left_join" and not set(ids_new) <= set(ids_acc):
+            raise Unsupported("left_join right identifiers not a subset")
+        if kind == "inner_join" and not (set(ids_new) <= set(ids_acc) or set(ids_acc) <= set(ids_new)):
+            raise Unsupported("inner_join identifiers not nested")
+        new_non_ids = [(n, cname(alias, n)) for n in c if c[n][0] != "I"]
+        extra_ids = [i for i in ids_new if i not in ids_acc]
+        out_c = dict(acc_c)
+        for i in extra_ids:
+            out_c[i] = c[i]
+        for n, cn in new_non_ids:
+            out_c[cn] = c[n]
+        # identifiers first, as VTL structures keep identifiers together (order is irrelevant for the comparison)
+        index = {}
+        for r in rows:
+            index.setdefault(tuple(r[k] for k in keys), []).append(r)
+        out_r, matched = [], set()
+        for r in acc_r:
+            k = tuple(r[x] for x in keys)
+            ms = index.get(k, [])
+            if ms:
+                for m in ms:
+                    o = dict(r)
+                    for i in extra_ids:
+                        o[i] = m[i]
+                    for n, cn in new_non_ids:
+                        o[cn] = m[n]
+                    out_r.append(o)
+                    matched.add(id(m))
+            elif kind in ("left_join", "full_join"):
+                o = dict(r)
+                for i in extra_ids:
+                    o[i] = None
+                for n, cn in new_non_ids:
+                    o[cn] = None
+                out_r.append(o)
+        if kind == "full_join":
+            for m in rows:
+                if id(m) not in matched:
+                    o = {n: None for n in acc_c}
+                    for i in ids_new:
+                        o[i] = m[i]
+                    for n, cn in new_non_ids:
+                        o[cn] = m[n]
+                    out_r.append(o)
+        acc_c, acc_r = out_c, out_r
+    cur = (acc_c, acc_r)
+    for ckind, payload in body:
+        if ckind == "aggr":
+            items, mode, gids = payload
+            cur = eval_aggr_clause(("aggrclause", ("ds", "__J__"), items, mode, gids, None), {"__J__": cur})
+        else:
+            cur = eval_ds(("clause", ckind, ("ds", "__J__"), payload), {"__J__": cur})
+    return cur
+
+
+# ---- analytic functions (C06) -------------------------------------------------------
+def _frame_rows(part, i, window, order_vals):
+    """Indices of the rows of the (ordered) partition inside the frame of row i.
+    window = (mode, start, end) with mode 'rows'|'range', bounds ('up'|'uf'|'cur'|('p', n)|('f', n))."""
+    n = len(part)
+    if window is None:
+        return list(range(n))
+    mode, s, e = window
+    if mode == "rows":
+        def pos(b, default):
+            if b == "up": return 0
+            if b == "uf": return n - 1
+            if b == "cur": return i
+            return i - b[1] if b[0] == "p" else i + b[1]
+        lo, hi = pos(s, 0), pos(e, n - 1)
+        return [j for j in range(max(lo, 0), min(hi, n - 1) + 1)]
+    v = order_vals[i]
+    def val(b, low):
+        if b == "up": return None
+        if b == "uf": return None
+        if b == "cur": return v
+        return v - b[1] if b[0] == "p" else v + b[1]
+    lo = None if s == "up" else val(s, True)
+    hi = None if e == "uf" else val(e, False)
+    return [j for j in range(n) if (lo is None or order_vals[j] >= lo) and (hi is None or order_vals[j] <= hi)]
+
+
+def eval_analytic(ir, env):
+    """("analytic", op, A, measure or None, partition ids, [(id, 'asc'|'desc')], window or None, params, target or None)"""
+    _, op, a, measure, partition, orderby, window, params, target = ir
+    ca, ra = eval_ds(a, env)
+    meas = [measure] if measure else measures_of(ca)
+    out_c = dict(ca)
+    def rtype(t):
+        if op in ("count", "rank"): return "Integer"
+        if op in ("sum", "min", "max", "first_value", "last_value", "lag", "lead"): return t
+        return "Number"
+    if target:
+        out_c[target] = ("M", rtype(ca[measure][1]) if measure else "Integer")
+    else:
+        out_c = {n: v for n, v in ca.items() if v[0] == "I"}
+        for m in meas:
+            out_c[m] = ("M", rtype(ca[m][1]))
+    parts = {}
+    for r in ra:
+        parts.setdefault(tuple(r[p] for p in partition), []).append(r)
+    out_rows = []
+    for key, rows in parts.items():
+        for oid, direction in reversed(orderby):
+            rows = sorted(rows, key=lambda r: r[oid], reverse=(direction == "desc"))
+        order_vals = [r[orderby[0][0]] for r in rows] if orderby else [0] * len(rows)
+        if window is not None and window[0] == "range" and orderby and orderby[0][1] == "desc":
+            order_vals = [-v for v in order_vals]
+        for i, r in enumerate(rows):
+            res = {}
+            for m in (meas if op != "rank" else [None]):
+                if op == "rank":
+                    v = i + 1
+                elif op in ("lag", "lead"):
+                    off = params[0] if params else 1
+                    j = i - off if op == "lag" else i + off
+                    v = rows[j][m] if 0 <= j < len(rows) else None
+                elif op == "ratio_to_report":
+                    tot = aggregate("sum", [x[m] for x in rows])
+                    if r[m] is None or tot is None:
+                        v = None
+                    elif tot == 0:
+                        raise Unsupported("ratio_to_report over a zero total")
+                    else:
+                        v = Fraction(r[m]) / Fraction(tot)
+                else:
+                    if window is None and not orderby:
+                        raise Unsupported("framed analytic function without ordering and without explicit window")
+                    idx = _frame_rows(rows, i, window if window else ("rows", "up", "cur"), order_vals)
+                    vals = [rows[j][m] for j in idx]
+                    if op == "first_value":
+                        v = vals[0] if vals else None
+                    elif op == "last_value":
+                        v = vals[-1] if vals else None
+                    else:
+                        v = aggregate(op, vals)
+                res[m] = v
+            if target:
+                o = dict(r)
+                o[target] = res[meas[0] if op != "rank" else None]
+            else:
+                o = {n: r[n] for n in ca if ca[n][0] == "I"}
+                for m in meas:
+                    o[m] = res[m]
+            out_rows.append(o)
+    return out_c, out_rows
+
+
+# ---- dataset-level if-then-else ------------------------------------------------------
+def eval_dsif(ir, env):
+    """("dsif", C, A, B): C a mono-measure Boolean dataset, A and B datasets with the same identifiers and measures.
+    For every datapoint of C: condition true -> the datapoint of A with the same identifiers, otherwise (false or null)
+    the datapoint of B; no partner in the selected branch -> no result datapoint."""
+    (cc, cr), (ca, ra), (cb, rb) = eval_ds(ir[1], env), eval_ds(ir[2], env), eval_ds(ir[3], env)
+    ids = ids_of(cc)
+    if sorted(ids) != sorted(ids_of(ca)) or sorted(ids) != sorted(ids_of(cb)) or sorted(measures_of(ca)) != sorted(measures_of(cb)):
+        raise Unsupported("dsif operand structures")
+    cm = measures_of(cc)
+    if len(cm) != 1 or cc[cm[0]][1] != "Boolean":
+        raise Unsupported("dsif condition")
+    out_c = {i: cc[i] for i in ids}
+    for m in measures_of(ca):
+        out_c[m] = ("M", _res_type("+", ca[m][1], cb[m][1]) if ca[m][1] != cb[m][1] else ca[m][1])
+    ia = {tuple(r[i] for i in ids): r for r in ra}
+    ib = {tuple(r[i] for i in ids): r for r in rb}
+    rows = []
+    for r in cr:
+        k = tuple(r[i] for i in ids)
+        src = ia.get(k) if r[cm[0]] is True else ib.get(k)
+        if src is not None:
+            rows.append(dict({i: r[i] for i in ids}, **{m: src[m] for m in measures_of(ca)}))
+    return out_c, rows
